@@ -49,10 +49,15 @@ def check_release(ctx: Context, rep, rule: str) -> None:
     calls = [c for c in ex.calls() if isinstance(c.func, ast.Attribute) and
              c.func.attr == "__exit__" and dotted(c.func.value) ==
              "self._rust_iter"]
-    guards = [n for n in ex.body_nodes() if isinstance(n, ast.If) and
-              ast.unparse(n.test) == "self._rust_iter is not None"]
-    rep.ob(rule, len(calls) == 1 and len(guards) == 1 and any(
-        x is calls[0] for x in ast.walk(guards[0])), loc=ex.loc(),
+    # with a live handle (CFG specialised on `self._rust_iter` set) every
+    # normal path through __exit__ calls the handle's __exit__
+    from sa.cfg import TRUTHY as _TR
+    xcfg = ctx.cfg(ex, {"self._rust_iter": _TR})
+    xcalls = xcfg.calls(lambda c: any(c is k for k in calls))
+    skipped = not xcalls or xcfg.exit in xcfg.reachable(
+        [xcfg.entry], avoiding=xcalls,
+        follow=lambda a, b, lab: lab not in ("exc", "raise"))
+    rep.ob(rule, len(calls) == 1 and not skipped, loc=ex.loc(),
            where=ex.qualname,
            construct="if self._rust_iter is not None: "
            "self._rust_iter.__exit__(...)",
